@@ -434,11 +434,19 @@ def oracle(ops, outs):
     fails = []
     w = RefWorld(False)
 
+    diverged = False      # after the first failure of a history the reference no longer describes the implementation's state
+
     def fail(i, sig, msg):
+        nonlocal diverged
+        diverged = True
         fails.append((i, sig, f"{msg}: op `{ops[i][:160]}` -> `{outs[i][:160]}`"))
 
     for i, (op, out) in enumerate(zip(ops, outs)):
         t = op.split(" ")
+        if t[0] in ("reset", "init"):
+            diverged = False
+        if diverged:
+            continue
         if out.startswith("panic"):
             fail(i, "dckey:panic", "the implementation panicked")
             w = RefWorld(False)
